@@ -12,6 +12,7 @@ violated - the spec-side witness of the stale-result defect the replay finds in 
 """
 
 import itertools
+import os
 import signal
 import socket
 
@@ -142,6 +143,12 @@ class World:
         prof = PROFILES[(self.idx * 7 + h["run"] * 11) % len(PROFILES)]
         for (name, sig), kind in zip(SIGS, prof):
             signal.signal(sig, handler_of(name, kind))
+        # real reactor, every other stop scenario: the stop request is a real SIGINT.  Twisted takes SIGINT over
+        # only from Python's default handler, so that is what is pre-installed (and must be back afterwards).
+        use_kill = self.real and s["stopAt"] != 99 and self.idx % 2 == 0
+        if use_kill:
+            signal.signal(signal.SIGINT, signal.default_int_handler)
+            prof = ("pydefault",) + prof[1:]
         sig_before = {name: signal.getsignal(sig) for name, sig in SIGS}
         stop_before = reactor.stop
         junk_at_entry = bool(spinner.get_junk())
@@ -158,7 +165,16 @@ class World:
                 self.sels.append(st["sel"])
                 reactor.addReader(st["sel"])
             if s["stopAt"] != 99:
-                made["stop"] = reactor.callLater(s["stopAt"] * U, lambda: reactor.stop())
+
+                def request_stop():
+                    hd = signal.getsignal(signal.SIGINT)
+                    if use_kill and getattr(hd, "__self__", None) is reactor:
+                        st["killed"] = True
+                        os.kill(os.getpid(), signal.SIGINT)  # -> reactor.sigInt -> reactor.stop()
+                    else:
+                        reactor.stop()
+
+                made["stop"] = reactor.callLater(s["stopAt"] * U, request_stop)
             if s["reenter"]:
                 # two attempts: a refused attempt must not open the door for the next one
                 for _ in range(2):
@@ -265,6 +281,8 @@ class World:
             want = sorted(x for x in h["fired"] if x != "timeout")
             if fired != want:
                 drift = "C15 fired calls differ from the model: %s vs %s in %s" % (fired, want, jdump(s))
+        if st.get("killed"):
+            obs = dict(obs, stop="SIGINT")
         return bad, obs, drift
 
     def close(self):
